@@ -227,7 +227,7 @@ def afterTsig (cfg : Server.Cfg) (tr : Server.Transport) (req : Bytes) (q : Opti
 /-- **the scan after a TSIG record** (verdict `tsigReached`): the handler runs the TSIG step on the
     writer state the scan left (`arSt`), and continues as `afterTsig` says; `r'` is the reader after
     the TSIG record -/
-theorem scanAndDispatch_tsig (cfg : Server.Cfg) (tr : Server.Transport) (now : Nat) (req : Bytes)
+theorem scanAndDispatch_tsig_view (cfg : Server.Cfg) (tr : Server.Transport) (now : Nat) (req : Bytes)
     (q : Option Spec.DQuestion) (question : Option (WName × Nat × Nat)) (hq : QRel q question)
     (r1 : Reader) (hi : Inv r1) (ho : r1.octets = req) (s1 : State) (hb : Base s1 tr cfg.payload)
     (hreq : req.size ≤ Rdata.USIZE_MAX) (htf : TsigFacts) (an ns ar opcode : Nat)
@@ -238,7 +238,10 @@ theorem scanAndDispatch_tsig (cfg : Server.Cfg) (tr : Server.Transport) (now : N
         afterTsig cfg tr req q question opcode r'.cursor
           (Server.tsigAfter cfg now t mw r'
             (arSt s1 tr cfg.payload (specTail (catKind cfg) cfg.payload req q r1.cursor an ns ar opcode).edns
-              (specTail (catKind cfg) cfg.payload req q r1.cursor an ns ar opcode).limitUdp)) := by
+              (specTail (catKind cfg) cfg.payload req q r1.cursor an ns ar opcode).limitUdp)) ∧
+      -- the TSIG record: the last of the `ar` additional records, after the `an + ns` plain ones
+      ∃ p2 d, Spec.Server.scanPlain req (an + ns) r1.cursor = some p2 ∧
+        Spec.ServerTsig.walk req ar p2 = some d ∧ TsigView req d t mw r' := by
   unfold Server.scanAndDispatch
   unfold specTail at hv ⊢
   have hi2 : Inv (setMark r1) := hi
@@ -269,8 +272,8 @@ theorem scanAndDispatch_tsig (cfg : Server.Cfg) (tr : Server.Transport) (now : N
       all_goals cases hv
     | tsig =>
       simp only [ArPost] at har
-      obtain ⟨t, mw, r', ho', hc', _, har⟩ := har
-      refine ⟨t, mw, r', ho', hc', ?_⟩
+      obtain ⟨t, mw, r', ho', hc', _, har, dT, hwalk, hview⟩ := har
+      refine ⟨t, mw, r', ho', hc', ?_, p2, dT, rfl, hwalk, hview⟩
       simp only
       rw [bind_apply, har]
       have hS : (Server.tsigAfter cfg now t mw r' (arSt s1 tr cfg.payload e l)).2.octets.size = s1.octets.size := by
@@ -289,6 +292,22 @@ theorem scanAndDispatch_tsig (cfg : Server.Cfg) (tr : Server.Transport) (now : N
             (by rw [hS]; exact hb.size3)
       · rfl
       · rfl
+
+theorem scanAndDispatch_tsig (cfg : Server.Cfg) (tr : Server.Transport) (now : Nat) (req : Bytes)
+    (q : Option Spec.DQuestion) (question : Option (WName × Nat × Nat)) (hq : QRel q question)
+    (r1 : Reader) (hi : Inv r1) (ho : r1.octets = req) (s1 : State) (hb : Base s1 tr cfg.payload)
+    (hreq : req.size ≤ Rdata.USIZE_MAX) (htf : TsigFacts) (an ns ar opcode : Nat)
+    (hc12 : 12 ≤ s1.cursor) (hr12 : 12 ≤ s1.rrStart)
+    (hv : (specTail (catKind cfg) cfg.payload req q r1.cursor an ns ar opcode).verdict = .tsigReached) :
+    ∃ (t : Tsig.ReadTsigRr) (mw : Bytes) (r' : Reader), r'.octets = req ∧ r'.cursor ≤ req.size ∧
+      Server.scanAndDispatch cfg tr now an ns ar opcode question r1 s1 =
+        afterTsig cfg tr req q question opcode r'.cursor
+          (Server.tsigAfter cfg now t mw r'
+            (arSt s1 tr cfg.payload (specTail (catKind cfg) cfg.payload req q r1.cursor an ns ar opcode).edns
+              (specTail (catKind cfg) cfg.payload req q r1.cursor an ns ar opcode).limitUdp)) := by
+  obtain ⟨t, mw, r', h1, h2, h3, _⟩ := scanAndDispatch_tsig_view cfg tr now req q question hq r1 hi ho s1 hb hreq htf
+    an ns ar opcode hc12 hr12 hv
+  exact ⟨t, mw, r', h1, h2, h3⟩
 
 /-- **`handle_message_with_context` on a request whose scan reaches a well-formed TSIG record**: the
     header counts and the question are processed as for any request, the scan leaves the writer in
